@@ -783,6 +783,17 @@ func cmdCheck(prop string, args []string) {
 		ex := g.ex[0]
 		path := filepath.Join(outDir, "replays", fmt.Sprintf("%s-%s-%d.json", g.prop, slug(strings.TrimPrefix(g.sig, g.prop+"/")), ex.BaseSeed))
 		final := finalize(ex, g.sig, shrinkBudget, *seed, *tier)
+		if strings.Contains(g.sig, "/stall/") && !strings.HasPrefix(final.ReplaysOK, "3/3") {
+			// a watchdog stall that does not reproduce from its own tape is machine load
+			// (sixteen children allocating at once), not a property of the code
+			nviol -= len(g.ex)
+			if nviol == 0 {
+				exit = 0
+			}
+			artefacts += len(g.ex)
+			fmt.Printf("vcheck: %d run(s) hit the watchdog once but do not stall when replayed (%s): counted as abandoned runs\n", len(g.ex), final.ReplaysOK)
+			continue
+		}
 		final.Property = g.prop
 		final.RepoHead = repoHead()
 		b, _ := json.MarshalIndent(final, "", " ")
